@@ -3,7 +3,9 @@
    DSL semantics of Drv/C11.lean; the specification side uses the compositional `specEval`. -/
 import PS.Sexp
 import PS.Model.Solver
+import PS.Model.SolverRestart
 import PS.Drv.C11
+import PS.Drv.C04
 namespace PS.C10
 open PS Sexp
 open PS.C11 (Lbl Val mkSem decodeProg decodeVal)
@@ -78,6 +80,134 @@ def runOps (k : Kind) (S : PS.C11.Sem Lbl Val String) (useCache : Bool) :
   | s, c, .resetStats :: rest => .list [.atom "ok"] :: runOps k S useCache (resetStats s) c rest
   | s, c, .clearCache :: rest => .list [.atom "ok"] :: runOps k S useCache s (PS.C11.clearCache c) rest
 
+
+/-! ### restart solver (ops `c10.rsession`, `c10.rgrammar`) -/
+
+/-- enumerators are numbered by the restart that created them; enumerator `i` serves the list
+    `lists[i]` (materialised by the harness from the implementation's i-th enumerator) -/
+def listStream (lists : List (List Prog)) (en : Nat) (i : Nat) : Option Prog :=
+  match lists[en]? with
+  | none => none
+  | some l => l[i]?
+
+/-- restart criteria of the harness: `(gt k)` = `len(_data) - _last_size > k` (the shape of the
+    default criterion), `(every m)` = `_programs % m == 0`, `(never)`, `(always)` -/
+def decodeCriterion : Sexp → Option (RSolver Prog → Bool)
+  | .list [.atom "gt", k] => do
+      let k ← k.nat?
+      pure (fun s => decide (s.data.length - s.lastSize > k))
+  | .list [.atom "every", m] => do
+      let m ← m.nat?
+      pure (fun s => decide (s.self.programs % m = 0))
+  | .list [.atom "never"] => some (fun _ => false)
+  | .list [.atom "always"] => some (fun _ => true)
+  | _ => none
+
+structure RTask where
+  examples : List (List Val × Val)
+  lists : List (List Prog)
+  dl : List Bool
+  answers : List Bool
+  criterion : RSolver Prog → Bool
+  fuel : Nat
+
+inductive ROpD where
+  | task (t : RTask)
+  | resetStats
+  | clearCache
+
+def decodeROp : Sexp → Option ROpD
+  | .list [.atom "task", .list lists, .list exs, .list dl, .list as, crit, fuel] => do
+      let ls ← allSome (fun l => match l with | .list ps => allSome decodeProg ps | _ => none) lists
+      pure (.task ⟨← allSome decodeExample exs, ls, ← allSome Sexp.bool? dl, ← allSome Sexp.bool? as,
+                   ← decodeCriterion crit, ← fuel.nat?⟩)
+  | .list [.atom "reset"] => some .resetStats
+  | .list [.atom "clear"] => some .clearCache
+  | _ => none
+
+def encRStatus : RStatus String → Sexp
+  | .suspended => .list [.atom "suspended"]
+  | .outOfFuel => .list [.atom "outOfFuel"]
+  | .finished .accepted => .list [.atom "finished", .atom "accepted"]
+  | .finished .timeout => .list [.atom "finished", .atom "timeout"]
+  | .finished .exhausted => .list [.atom "finished", .atom "exhausted"]
+  | .finished .stopIteration => .list [.atom "finished", .atom "stopIteration"]
+  | .finished (.raised e) => .list [.atom "finished", .atom "raised", .str e]
+
+def encScore : Option Score → Sexp
+  | some sc => .list [ofNat sc.num, ofNat sc.den]
+  | none => .list [.atom "none"]
+
+def encLast : Option Prog → Sexp
+  | some p => .list [.atom "some", .str (progStr p)]
+  | none => .list [.atom "none"]
+
+def encSolver (s : Solver Prog) : Sexp :=
+  .list [ofNat s.statsPrograms, encLast s.statsLast, ofNat s.statsCloses, ofNat s.programs, encScore s.score]
+
+/-- model run of one task of the restart solver + what the specification says about it -/
+def runRTask (k : Kind) (S : PS.C11.Sem Lbl Val String) (useCache fixNext fixStats : Bool) (s : RSolver Prog)
+    (c : Cache) (t : RTask) : RRun Cache Prog String × Sexp :=
+  let prm : Params Nat Prog := ⟨listStream t.lists, t.criterion, fun en _ => en + 1, fixNext, fixStats⟩
+  let r := solveR prm (test k (dslEv S useCache) t.examples) t.fuel s c 0 t.dl t.answers
+  let spec := PS.C11.specEval S
+  let vd := verdict k spec t.examples
+  let sats := sat spec t.examples
+  let tp : Prog → Except String (Bool × Score) := fun p => (test k (pureEv spec) t.examples () p).2
+  let seg := segRun prm tp t.fuel (initTaskR s) 0 0
+  let es := seg.map (·.p)
+  let out := Sexp.list [
+    .atom "task",
+    encProgs r.yielded,
+    encRStatus r.status,
+    encSolver r.solver.self,
+    encSolver r.solver.sub,
+    ofNat r.solver.statsRestarts,
+    ofNat r.solver.restarts,
+    .list (r.solver.data.map (fun d => .list [.str (progStr d.1), ofNat d.2.num, ofNat d.2.den])),
+    ofNat r.solver.lastSize,
+    -- specification
+    encProgs es,
+    .list (seg.map (fun e => .list [ofNat e.en, ofNat e.pos, ofNat e.s.data.length, ofNat e.s.restarts])),
+    encProgs (specYields vd sats es t.dl t.answers),
+    .list (es.map (fun p => ofBool (sats p))),
+    .list (es.map (fun p => encVerdict (vd p))),
+    ofNat (horizon vd es t.dl),
+    .list (es.map (fun p => match tp p with
+      | .ok (_, sc) => .list [ofNat sc.num, ofNat sc.den]
+      | .error _ => .list [.atom "none"]))]
+  (r, out)
+
+def runROps (k : Kind) (S : PS.C11.Sem Lbl Val String) (useCache fixNext fixStats : Bool) :
+    RSolver Prog → Cache → List ROpD → List Sexp
+  | _, _, [] => []
+  | s, c, .task t :: rest =>
+    let (r, out) := runRTask k S useCache fixNext fixStats s c t
+    out :: runROps k S useCache fixNext fixStats r.solver r.st rest
+  | s, c, .resetStats :: rest => .list [.atom "ok"] :: runROps k S useCache fixNext fixStats (resetStatsR s) c rest
+  | s, c, .clearCache :: rest => .list [.atom "ok"] :: runROps k S useCache fixNext fixStats s (PS.C11.clearCache c) rest
+
+/-- `_restart_`'s grammar on the implementation's tables: model (`restartTags`) and specification
+    (`specWeight`, for plain grammars) -/
+def restartGrammar (g tg : Sexp) (data : List Sexp) (prior : Sexp) : Option Sexp := do
+  let G ← PS.C04.decTT g
+  let tags ← PS.C04.decTags tg
+  let dat ← allSome (fun d => match d with
+    | .list [p, sc] => do pure (← PS.Wire.decProg p, ← PS.C04.decRat sc)
+    | _ => none) data
+  let pr ← PS.C04.decRat prior
+  match RG.restartTags G tags dat pr with
+  | none => pure (.list [.atom "exn"])
+  | some t =>
+    let Gu := PS.C04.toUnit G
+    let specT : Sexp :=
+      if PS.C04.isPlain G then
+        .list (Gu.rules.map (fun e => .list [PS.C04.encNTS (PS.C04.ofUnitNT e.1),
+          .list (e.2.map (fun r => .list [PS.Wire.encSym r.1,
+            PS.C04.encRat (RG.specWeight Gu dat pr e.1 (e.2.map (·.1)) r.1)]))]))
+      else .list []
+    pure (.list [.atom "ok", PS.C04.encTags t, specT])
+
 def handle : Sexp → Option Sexp
   | .list [.atom "c10.session", k, uc, .list skips, .list ops] => do
       let k ← decodeKind k
@@ -85,6 +215,13 @@ def handle : Sexp → Option Sexp
       let skips ← allSome Sexp.string? skips
       let ops ← allSome decodeOp ops
       pure (.list (runOps k (mkSem skips) uc Solver.init [] ops))
+  | .list [.atom "c10.rsession", k, uc, .list skips, fixNext, fixStats, .list ops] => do
+      let k ← decodeKind k
+      let uc ← uc.bool?
+      let skips ← allSome Sexp.string? skips
+      let ops ← allSome decodeROp ops
+      pure (.list (runROps k (mkSem skips) uc (← fixNext.bool?) (← fixStats.bool?) RSolver.init [] ops))
+  | .list [.atom "c10.rgrammar", g, tg, .list data, prior] => restartGrammar g tg data prior
   | _ => none
 
 end PS.C10
